@@ -950,9 +950,15 @@ func expectedReports(sc *scenario, events []mx.Event) []*expReport {
 					}
 				}
 				if att.Commit != "" && att.Commit != mx.OK {
+					// A failing Commit concerns the recipients that were going
+					// to be committed; a recipient that already got its own
+					// (per-recipient) failure in this attempt keeps it as its
+					// last status (same reading as C01; queue fix a330894).
 					e := get(mx.StCommit, "")
 					for a := range accepted {
-						last[a] = e
+						if last[a] == nil {
+							last[a] = e
+						}
 					}
 				}
 			}
